@@ -109,6 +109,19 @@ def make_prog(seed, i):
         b = spec.Method("cd%d" % k, ("ref", None), [("f", ("cb", extra + [("opt", pa, "dip")], ("opt", pr_, "dip"), False))], ("unit",))
         op.methods += [a, b]
         pairs.append((a, b))
+    # the owner's own type spelled `Self` inside an option (a separate AST node that needs the same FFI-safe conversion), on a struct and
+    # on an enum: by-value parameter and return, and inside a callback
+    for owner in (st, en):
+        ot = (owner.kind, owner.name)
+        a = spec.Method("so", ("val",), [("o", ("opt", ot, "std"))], ("opt", ot, "std"))
+        b = spec.Method("sd", ("val",), [("o", ("opt", ot, "dip"))], ("opt", ot, "dip"))
+        a2 = spec.Method("cso", None, [("f", ("cb", [("opt", ot, "std")], ("opt", ot, "std"), False))], ("unit",))
+        b2 = spec.Method("csd", None, [("f", ("cb", [("opt", ot, "dip")], ("opt", ot, "dip"), False))], ("unit",))
+        a.self_spelling = a2.self_spelling = True
+        for m_ in (a, b, a2, b2):
+            m_.owner = owner
+            owner.methods.append(m_)
+        pairs += [(a, b), (a2, b2)]
     # optional pointers
     pr = spec.Method("pref", ("ref", "a"), [("x", ("oref", "Hub", False, None, True))], ("oref", "Hub", False, "a", True), lifetimes=["a"])
     pb = spec.Method("pbox", ("ref", None), [("x", ("oref", "Hub", True, None, True))], ("obox", "Hub", True))
@@ -143,6 +156,7 @@ def build_script(prog, pairs, rng):
         sc.call(op, mk)
     for a, b in pairs:
         for rep in range(3):
+            op = a.owner
             s1 = sc.call(op, a)
             args = {k: v for k, v in s1["args"].items() if k != "self"}
             for k, v in list(args.items()):
@@ -152,7 +166,8 @@ def build_script(prog, pairs, rng):
                     args[k]["cb"] = sc.cb_counter
             ret = copy.deepcopy(s1["ret"])
             strip_ids(ret)
-            sc.call(op, b, force_self=s1["args"]["self"], force_args=args, force_ret=ret)
+            sc.call(op, b, force_self=s1["args"].get("self"), force_args=args, force_ret=ret)
+    op = prog.find("Hub")
     for m in op.methods:
         if m.name in ("pref", "pbox"):
             for rep in range(6):
@@ -307,10 +322,9 @@ def main(tier, seed):
         res["sizes"] = sizes
         # (a) identical declarations
         res["decl_viol"] = []
-        hp = os.path.join(d, "c", "Hub.h")
-        if os.path.exists(hp):
-            h = open(hp).read()
+        if os.path.exists(os.path.join(d, "c", "Hub.h")):
             for a, b in pairs:
+                h = open(os.path.join(d, "c", a.owner.name + ".h")).read()
                 da, db = decls(h, a.abi_name), decls(h, b.abi_name)
                 if da != db or not da:
                     res["decl_viol"].append((a.abi_name, b.abi_name, da, db))
